@@ -3,12 +3,12 @@ from checks import lrfamily
 
 LEVEL = "proof"
 MODULE = "LalrpopModel.Props.C05"
-THEOREMS = ['LalrpopModel.LR.GenericThms.expected_nodup_sorted', 'LalrpopModel.LR.GenericThms.expected_mem_iff', 'LalrpopModel.LR.GenericThms.accepts_fuel_mono']
+THEOREMS = ['LalrpopModel.LR.GenericThms.expected_nodup_sorted', 'LalrpopModel.LR.GenericThms.expected_mem_iff', 'LalrpopModel.LR.GenericThms.accepts_fuel_mono', 'LalrpopModel.LR.expected_sound', 'LalrpopModel.LR.expected_sound_token', 'LalrpopModel.LR.expected_sound_eof', 'LalrpopModel.LR.expected_nodup', 'LalrpopModel.LR.expected_excludes_error', 'LalrpopModel.LR.expected_mem_iff_accepts', 'LalrpopModel.LR.expected_complete_if_stack_unchanged', 'LalrpopModel.LR.expected_complete_no_reduction']
 MANIFEST = {
     "category": "proof",
     "technique": 'Lean 4 proof over the driver model + certificates + correspondence (incl. a model of the ascent list)',
     "text": 'expected_nodup_sorted: every expected list is strictly increasing, duplicate-free and excludes the error terminal; expected_mem_iff: membership is exactly the outcome of the accepts simulation over the whole stack. Lists are compared as sequences between the real driver, compiled parsers and the model; the recursive-ascent list is modelled separately (action row of the error state) and compared exactly; its over-breadth w.r.t. the proven-sound table-driven list is the known finding `ascent-expected-is-state-action-row`.',
-    "note": 'Soundness w.r.t. sentence prefixes (expected_sound) is in Props/LRPrefixThms when built; completeness only for canonical LR(1) as the property says.',
+    "note": 'expected_sound proved (Props/LRPrefixThms, needs V5/V6); completeness proved when no reduction happened under the offending lookahead (expected_complete_no_reduction); the link canonical LR(1) => that hypothesis is not proved (expected_complete_canonical kept as a comment).',
 }
 
 
